@@ -12,7 +12,7 @@ ROOT = os.path.dirname(os.path.dirname(os.path.abspath(__file__)))
 REPO = os.environ.get('VERIF_REPO', '/repo')
 
 
-def run(props, timeout=900, only=None):
+def run(props, timeout=420, only=None):
     files = []
     for p in props:
         files += sorted(glob.glob(os.path.join(ROOT, 'witness', p, '*.rs')))
@@ -69,7 +69,20 @@ def run(props, timeout=900, only=None):
                 res['failed'].append({'test': name, 'scenario': modmap.get(mod), 'output': (mm.group(1) if mm else '')[:1500],
                                       'cmd': 'tool/demo.sh %s' % modmap.get(mod)})
     except subprocess.TimeoutExpired:
-        res['inconclusive'] = 'timeout'
+        # something hangs: find out which scenario (each file on its own, shorter leash); a scenario that does not finish is a failing one
+        # (the scenarios carry their own watchdogs; what is left are calls that never return)
+        if len(files) > 1 and not os.environ.get('VERIF_WITNESS_NO_SPLIT'):
+            for f in files:
+                rel = os.path.relpath(f, ROOT)
+                sub = run(props, timeout=min(timeout, 240), only=[rel])
+                res['ran'] += sub.get('ran', 0)
+                res['passed'] += sub.get('passed', 0)
+                res['failed'] += sub.get('failed', [])
+        else:
+            rel = os.path.relpath(files[0], ROOT) if files else '?'
+            res['failed'].append({'test': rel + ' (did not finish)', 'scenario': rel,
+                                  'output': 'the scenario did not finish within %d s: some call on the real code never returns' % timeout,
+                                  'cmd': 'tool/rundemo.sh %s' % rel})
     finally:
         shutil.rmtree(w, ignore_errors=True)
         res['wall_s'] = round(time.time() - t0, 1)
